@@ -19,6 +19,14 @@ CLAIMED = {
             "publishing with the computing guard owned, every column write in a run-to-completion body, Guard::drop spawns. Not decided: correctness of values after a cut.",
             "Trusted: rustc nightly MIR + its MaybeInitializedPlaces analysis, CHA over the workspace's StorageEngine impls, tokio::spawn runs futures to completion."),
 }
+CLAIMED["C01"] = (
+    "MIR loop-form must-pass-through, match-arm sibling agreement, dominance and def-use links (rustc_private driver, custom rules)",
+    "Decides protocol obligations that are necessary for the invalidation closure to be complete (every backward edge marked or buffered, buffered marks "
+    "drained after the barrier into the same batch, Single/Unordered arms symmetric, stored order == wired order, dependencies cleared before re-execution, "
+    "propagate before submit, Hit only at the caller's epoch, Cleaned only on equal fingerprints, unordered groups fenced by unsafe). It does NOT decide that "
+    "incremental values equal from-scratch values.",
+    "Trusted: rustc nightly MIR construction; the frozen anchor table in engine/qbv/rules/C01.py; executors are pure.")
+
 NOT_YET = "check under construction in this round (DESIGN.md section 5 lists its clauses); not claimed until its rules are armed and self-tested"
 
 checks = []
